@@ -347,7 +347,7 @@ fn c07_balance_sapling_1x1_memo() {
     }
 }
 
-//@ {"p":"C07","tier":"quick","clause":"the same formula with NO bound on sizes and counts: for every usize size and count the result is the exact 128-bit value when that is <= MAX_MONEY and Err(Balance(Overflow)) otherwise - never a panic, never a wrapped (too small) fee","bounds":"2 transparent inputs and 2 outputs, all four sizes and all four counts any usize","covers":3,"t":1800}
+//@ {"p":"C07","tier":"quick","clause":"the same formula with NO bound on sizes and counts: for every usize size and count the result is the exact 128-bit value when that is <= MAX_MONEY and Err(Balance(Overflow)) otherwise - never a panic, never a wrapped (too small) fee","bounds":"2 transparent inputs and 2 outputs, all four sizes and all four counts any usize","covers":3,"t":3600}
 #[kani::proof]
 #[kani::unwind(4)]
 fn c07_fee_formula_full_range() {
